@@ -77,6 +77,11 @@ def corpus():
         ('peer', [rq]), ('peer', [rc.enc_pdu(0x0B, b'')]), ('fin',)])
     c['A14_release_then_fin'] = dict(role='acceptor', user={'no_release_rp': True}, steps=[
         ('peer', [rq]), ('peer+fin', [echo_rq(1)[:20]])])
+    c['A7b_release_rp_then_fin'] = dict(role='acceptor', steps=[
+        ('peer', [rq]), ('peer', [echo_rq(1)]), ('user', 'release'),
+        ('peer+fin', store[:1] + [rel_rp])])
+    c['R5b_ac_abort_fin'] = dict(role='requestor', steps=[
+        ('user', 'associate'), ('peer+fin', [ac, rc.enc_abort(2, 6)])])
     c['A7_user_releases'] = dict(role='acceptor', steps=[
         ('peer', [rq]), ('peer', [echo_rq(1)]), ('user', 'release'), ('peer', [rel_rp]), ('fin',)])
     c['A8_user_aborts'] = dict(role='acceptor', steps=[
